@@ -462,14 +462,56 @@ type dcCase struct {
 	SVEps    float64 `json:"sveps"`
 	Repair   bool    `json:"repair"`
 	Interior bool    `json:"interior"`
+	// Shortcut: go through the convenience functions DualContour / DualContourInterior(solid, delta, repair, clip)
+	// (every other option at its default) instead of filling in the struct
+	Shortcut bool `json:"shortcut,omitempty"`
+	// RepairEps: DualContouring.RepairEpsilon (relative to Delta; 0 = default 0.01).  Larger values move the copies
+	// of a singular vertex further, still inside their cube.
+	RepairEps float64 `json:"repair_eps,omitempty"`
+}
+
+// touchingBoxes: two or three axis-aligned boxes that touch in a point or along an edge, at a random position
+// relative to the lattice: the surface sheets of the two bodies share one dual-contouring vertex (a singular vertex
+// or edge), which is what Repair exists for.
+func touchingBoxes(t *rapid.T) source {
+	p := gen.Vec3(t, 0.5, "touch.p")
+	ext := func(l string) kit.V3 {
+		return kit.V3{gen.F(t, 0.4, 1, l+".x"), gen.F(t, 0.4, 1, l+".y"), gen.F(t, 0.4, 1, l+".z")}
+	}
+	a, b := ext("touch.a"), ext("touch.b")
+	box := func(lo, hi kit.V3) *gen.Node {
+		return &gen.Node{Op: "prim", Shape: &gen.Shape3{Kind: "rect", A: lo, B: hi}}
+	}
+	tree := &gen.Node{Op: "join"}
+	tree.Kids = append(tree.Kids, box(p.Sub(a), p))
+	switch rapid.IntRange(0, 2).Draw(t, "touch.mode") {
+	case 0: // in the point p
+		tree.Kids = append(tree.Kids, box(p, p.Add(b)))
+	case 1: // along the edge through p parallel to z
+		tree.Kids = append(tree.Kids, box(kit.V3{p[0], p[1], p[2] - b[2]}, kit.V3{p[0] + b[0], p[1] + b[1], p[2]}))
+	default: // three boxes around p
+		tree.Kids = append(tree.Kids, box(p, p.Add(b)), box(kit.V3{p[0], p[1] - b[1], p[2] - b[2]}, kit.V3{p[0] + b[0], p[1], p[2]}))
+	}
+	return source{Kind: "csg", Tree: tree}
 }
 
 func genDC(t *rapid.T) dcCase {
+	c := genDC0(t)
+	if rapid.IntRange(0, 4).Draw(t, "touching") == 0 {
+		c.Src = touchingBoxes(t)
+		c.Repair = rapid.IntRange(0, 3).Draw(t, "touchrepair") != 0
+	}
+	return c
+}
+
+func genDC0(t *rapid.T) dcCase {
 	return dcCase{Src: genSource(t), Cells: gen.F(t, 2.5, 9, "cells"), NoJitter: rapid.Bool().Draw(t, "nojitter"),
 		MaxGos: rapid.SampledFrom([]int{0, 1, 2, 7}).Draw(t, "maxgos"), BufRows: rapid.SampledFrom([]int{0, 0, 4, 5, 7}).Draw(t, "bufrows"),
 		Margin: rapid.SampledFrom([]float64{0, 0.01, 0.2}).Draw(t, "margin"), Mode: rapid.IntRange(0, 2).Draw(t, "mode"),
 		L2: rapid.SampledFrom([]float64{0, 0.01, 1}).Draw(t, "l2"), SVEps: rapid.SampledFrom([]float64{0, 0.01, 0.5}).Draw(t, "sveps"),
-		Repair: rapid.IntRange(0, 4).Draw(t, "repair") == 0, Interior: rapid.Bool().Draw(t, "interior")}
+		Repair: rapid.IntRange(0, 2).Draw(t, "repair") == 0, Interior: rapid.Bool().Draw(t, "interior"),
+		Shortcut: rapid.IntRange(0, 4).Draw(t, "shortcut") == 0,
+		RepairEps: rapid.SampledFrom([]float64{0, 0, 0.05, 0.2, 0.4}).Draw(t, "repaireps")}
 }
 
 func checkDC(c dcCase, o *kit.Obs) error {
@@ -483,18 +525,27 @@ func checkDC(c dcCase, o *kit.Obs) error {
 		return nil
 	}
 	o.Label("src:" + c.Src.Kind)
+	if c.Shortcut {
+		c.NoJitter, c.MaxGos, c.BufRows, c.Margin, c.Mode, c.L2, c.SVEps, c.RepairEps = false, 0, 0, 0, 0, 0, 0, 0
+		o.Label("api:shortcut")
+	}
 	xs, ys, zs := model3d.VerifDCLattice(solid.Min(), solid.Max(), delta, c.NoJitter)
 	g := [3][]float64{xs, ys, zs}
 	dc := &model3d.DualContouring{S: model3d.SolidSurfaceEstimator{Solid: solid}, Delta: delta, NoJitter: c.NoJitter, MaxGos: c.MaxGos,
-		Clip: true, Repair: c.Repair, CubeMargin: c.Margin, TriangleMode: model3d.DualContouringTriangleMode(c.Mode), L2Penalty: c.L2, SingularValueEpsilon: c.SVEps}
+		Clip: true, Repair: c.Repair, RepairEpsilon: c.RepairEps, CubeMargin: c.Margin, TriangleMode: model3d.DualContouringTriangleMode(c.Mode), L2Penalty: c.L2, SingularValueEpsilon: c.SVEps}
 	if c.BufRows > 0 {
 		dc.BufferSize = len(xs) * len(ys) * c.BufRows
 	}
 	var mesh *model3d.Mesh
 	var interior []model3d.Coord3D
-	if c.Interior {
+	switch {
+	case c.Shortcut && c.Interior:
+		mesh, interior = model3d.DualContourInterior(solid, delta, c.Repair, true)
+	case c.Shortcut:
+		mesh = model3d.DualContour(solid, delta, c.Repair, true)
+	case c.Interior:
 		mesh, interior = dc.MeshInterior()
-	} else {
+	default:
 		mesh = dc.Mesh()
 	}
 	tris := m3.Tris(mesh)
@@ -624,6 +675,59 @@ func checkDC(c dcCase, o *kit.Obs) error {
 		}
 		if len(verts) != nActiveCells {
 			return fmt.Errorf("%d distinct vertices for %d cells with a sign change", len(verts), nActiveCells)
+		}
+	}
+	if c.Repair {
+		// Repair is best effort as far as manifoldness goes, but it leaves every vertex where Clip put it up to a
+		// fraction of the cube margin: copies of a singular vertex are moved inside their cube (after being pulled
+		// away from its faces by that amount), and the vertex added on a singular edge sits next to the midpoint
+		// of two vertices of cells around one sign-changing lattice edge or face.  So every vertex lies in the
+		// CLOSED box of some cell that has a sign change (a vertex exactly on a lattice plane may use either side).
+		o.Label("repair")
+		active := func(ci [3]int) bool {
+			for a := 0; a < 3; a++ {
+				if ci[a] < 0 || ci[a]+1 >= dims[a] {
+					return false
+				}
+			}
+			first := at(ci[0], ci[1], ci[2])
+			for d := 1; d < 8; d++ {
+				if at(ci[0]+d&1, ci[1]+d>>1&1, ci[2]+d>>2&1) != first {
+					return true
+				}
+			}
+			return false
+		}
+		seen := map[kit.V3]bool{}
+		for _, t := range tris {
+			for _, v := range t {
+				if seen[v] {
+					continue
+				}
+				seen[v] = true
+				var cand [3][]int
+				for a := 0; a < 3; a++ {
+					i, exact := locate(g[a], v[a])
+					if i < 0 {
+						return fmt.Errorf("with Repair and Clip: vertex %v lies outside the lattice (axis %d)", v, a)
+					}
+					cand[a] = []int{i}
+					if exact {
+						cand[a] = append(cand[a], i-1)
+					}
+				}
+				ok := false
+				for _, i := range cand[0] {
+					for _, j := range cand[1] {
+						for _, k := range cand[2] {
+							ok = ok || active([3]int{i, j, k})
+						}
+					}
+				}
+				if !ok {
+					return fmt.Errorf("with Repair and Clip: vertex %v lies in no cell with a sign change (cells %v x %v x %v): Clip keeps vertices in their cubes and repairs move them by less than the margin they were given", v, cand[0], cand[1], cand[2])
+				}
+			}
 		}
 	}
 	if c.Interior {
